@@ -622,6 +622,32 @@ def replay(check_id, obl, failed_prop):
     return info
 
 
+def replay_blind(check_id, obl, failed_prop):
+    """For failed properties that carry no trace (CBMC's 'no body for callee f': the model cannot vouch for code that calls an unmodelled
+    function): run the real code natively on a few fixed input vectors. A native failure is a genuine failure of the real code under the
+    harness assumptions; a clean run proves nothing and is reported as such."""
+    os.makedirs(REPLAYS, exist_ok=True)
+    pname = failed_prop.get("property", "")
+    info = {"confirmed": False, "how": "", "path": None, "property": pname, "description": failed_prop.get("description", ""), "location": failed_prop.get("sourceLocation", {})}
+    h = hashlib.sha1(json.dumps([obl.name, pname, "blind"]).encode()).hexdigest()[:10]
+    path = os.path.join(REPLAYS, "%s-%s.json" % (check_id, h))
+    for label, vals in (("all inputs 0", []), ("all inputs 1", [1] * 4096), ("all inputs 0x41", [0x41] * 4096), ("all inputs 0xff", [0xff] * 4096)):
+        rec = {"property_id": check_id, "obligation": obl.name, "harness": obl.harness, "defines": obl.defines, "variant": obl.variant, "gen_src": obl.gen_src,
+               "extra_src": obl.extra_src, "failed_property": pname, "description": failed_prop.get("description", ""), "location": failed_prop.get("sourceLocation", {}), "inputs": vals}
+        json.dump(rec, open(path, "w"), indent=1)
+        out = replay_file(path)
+        if out.get("confirmed"):
+            out["how"] = out.get("how", "") + " [no solver trace for this property; fixed input vector: %s]" % label
+            rec["native"] = out
+            json.dump(rec, open(path, "w"), indent=1)
+            info.update(out)
+            info["path"] = path
+            return info
+    info["how"] = "native runs on fixed input vectors ran clean"
+    info["path"] = path
+    return info
+
+
 def replay_file(path):
     rec = json.load(open(path))
     obl = Obl(rec["obligation"], rec["harness"], rec["defines"], rec["variant"], gen_src=rec.get("gen_src"),
